@@ -306,10 +306,18 @@ func HarnessC19OptionPairs() {
 	if m < 0 {
 		m = verif.Choice("method", 12)
 	}
-	q := all[verif.Choice("arg", 2)*3] // the arguments of triple 0 or 3
+	q := []*spec{all[0], all[3], all[4]}[verif.Choice("arg", 3)] // the arguments of triple 0, 3 or 4 (4 is absent at first)
 	o1, o2 := c19SymOpt("o1"), c19SymOpt("o2")
+	// the caller may keep one options value and change its fields between the calls
+	reuse := verif.Choice("reuse", 2) == 1
+	shared := &storage.LookupOptions{}
 	check := func(o c19Opt, tag string) {
-		got, gotE, err1, f1 := c19ReadAll(mg, m, q, o.build(), all)
+		lo := o.build()
+		if reuse {
+			*shared = *lo
+			lo = shared
+		}
+		got, gotE, err1, f1 := c19ReadAll(mg, m, q, lo, all)
 		want, wantE, err2, f2 := c19ReadAll(pg, m, q, o.build(), all)
 		verif.Assert(verif.And(!f1, !f2), "C19/pairs/result-derived-from-stored-triple")
 		verif.Assert((err1 == nil) == (err2 == nil), "C19/pairs/same-error")
